@@ -112,7 +112,7 @@ theorem getSlot_putSlot_other (p : Pool) (st : SlotState) (x : Nat) (hx : x ≠ 
       have : (st.slot == x) = false := by simp; omega
       simp [this]
 
-theorem getSlot_prune (p : Pool) (x : Nat) : p.prune.getSlot x = if x < p.fin.first then none else p.getSlot x := by
+theorem getSlot_pruneW (p : Pool) (x : Nat) : p.prune.getSlot x = if x < p.fin.first then none else p.getSlot x := by
   unfold Pool.prune Pool.getSlot
   dsimp only
   induction p.slots with
@@ -133,7 +133,7 @@ theorem getSlot_prune (p : Pool) (x : Nat) : p.prune.getSlot x = if x < p.fin.fi
         have : x < p.fin.first := by omega
         rw [ih]; simp [this]
 
-theorem getSlot_slot {p : Pool} {s : Nat} {st : SlotState} (h : p.getSlot s = some st) : st.slot = s :=
+theorem getSlot_slotW {p : Pool} {s : Nat} {st : SlotState} (h : p.getSlot s = some st) : st.slot = s :=
   (getSlot_mem p s st h).2
 
 /-! ### operations that keep the certificate stores of the retained slots -/
@@ -204,7 +204,7 @@ theorem ext_prune (p : Pool) : Ext p p.prune := by
   have hx' : ¬ x < p.fin.first := by
     have : p.prune.fin.first = p.fin.first := rfl
     omega
-  rw [getSlot_prune, if_neg hx']; exact hs
+  rw [getSlot_pruneW, if_neg hx']; exact hs
 
 theorem ext_applyPr (p : Pool) (r : ParentReady.Res) : Ext p (p.applyPr r).1 := by
   unfold Pool.applyPr
@@ -239,7 +239,7 @@ theorem ext_notifyChildren (p : Pool) (kids : List (Nat × Nat)) (acc : List Eve
         have hce := notifyParentCertified_core (p.slotState cs).1.epoch (p.slotState cs).2 ch st' evs hn
         have hsl : st'.slot = cs := by
           rw [← coreEq_slot hce]
-          exact getSlot_slot (getSlot_slotState_same p cs)
+          exact getSlot_slotW (getSlot_slotState_same p cs)
         have h2 : Ext (p.slotState cs).1 ((p.slotState cs).1.putSlot st') := by
           apply ext_putSlot
           intro st0 hs
@@ -267,7 +267,7 @@ theorem ext_addBlockTail (p : Pool) (b par : Nat × Nat) (e0 : List Event) (cert
       have hce := notifyParentCertified_core (p.slotState b.1).1.epoch (p.slotState b.1).2 b.2 st' evs hn
       have hsl : st'.slot = b.1 := by
         rw [← coreEq_slot hce]
-        exact getSlot_slot (getSlot_slotState_same p b.1)
+        exact getSlot_slotW (getSlot_slotState_same p b.1)
       have h2 : Ext (p.slotState b.1).1 ((p.slotState b.1).1.putSlot st') := by
         apply ext_putSlot
         intro st0 hs
@@ -394,7 +394,7 @@ theorem logHeld_store (p : Pool) (c : Cert) (L : List LogItem) (h : LogHeld p L)
     LogHeld ((p.slotState c.slot).1.putSlot ((p.slotState c.slot).2.addCert c)) (L ++ [.cert c]) := by
   have hsl : ((p.slotState c.slot).2.addCert c).slot = c.slot := by
     rw [← (SameVotes.addCert _ c).slot]
-    exact getSlot_slot (getSlot_slotState_same p c.slot)
+    exact getSlot_slotW (getSlot_slotState_same p c.slot)
   intro c0 hc0 hf
   rw [putSlot_fin, slotState_fin] at hf
   by_cases hs : c0.slot = c.slot
@@ -501,7 +501,7 @@ theorem ext_addVoteQ (p : Pool) (v : Vote) : Ext p (addVoteQ p v) := by
   intro st0 hs
   have hsl : ((p.slotState v.slot).2.addVote (p.slotState v.slot).1.epoch v).1.slot = v.slot := by
     rw [← (slot_addVote_certsEq _ _ v).1]
-    exact getSlot_slot (getSlot_slotState_same p v.slot)
+    exact getSlot_slotW (getSlot_slotState_same p v.slot)
   rw [hsl, getSlot_slotState_same] at hs
   cases hs
   exact slot_addVote_certsEq _ _ v
@@ -520,9 +520,9 @@ theorem addCert_shape (p : Pool) (c : Cert) :
     | exact Or.inl ⟨Or.inr rfl, rfl⟩
     | exact Or.inr ⟨by simpa using hob, rfl, certsOf_addValidCert _ _⟩
 
-/-! ### `Held`: wired, and logged ⇒ held -/
+/-! ### `HeldLog`: wired, and logged ⇒ held -/
 
-structure Held (p : Pool) (L : List LogItem) : Prop where
+structure HeldLog (p : Pool) (L : List LogItem) : Prop where
   wired : Wired p.trk L
   logHeld : LogHeld p L
 
@@ -530,20 +530,20 @@ theorem finState_inv {L : List LogItem} (hs : Finality.Safe (finOps L)) : Finali
   obtain ⟨fevs, hrun, _⟩ := trace_inv L hs
   exact (Finality.run_inv Finality.inv_init hrun).1
 
-theorem Held.inv {p : Pool} {L : List LogItem} (h : Held p L) (hs : Finality.Safe (finOps L)) : Finality.Inv p.fin := by
+theorem HeldLog.inv {p : Pool} {L : List LogItem} (h : HeldLog p L) (hs : Finality.Safe (finOps L)) : Finality.Inv p.fin := by
   have := finState_inv hs
   rw [h.wired.fin] at this
   exact this
 
-theorem Held.ext {p p' : Pool} {L : List LogItem} (h : Held p L) (ht : p'.trk = p.trk) (he : Ext p p') : Held p' L :=
+theorem HeldLog.ext {p p' : Pool} {L : List LogItem} (h : HeldLog p L) (ht : p'.trk = p.trk) (he : Ext p p') : HeldLog p' L :=
   ⟨by rw [ht]; exact h.wired, h.logHeld.ext he⟩
 
-theorem held_addValidCert (p : Pool) (c : Cert) (L : List LogItem) (h : Held p L) (hc : Consistent (L ++ [.cert c])) :
-    Held (p.addValidCert c).1 (L ++ [.cert c]) :=
+theorem held_addValidCert (p : Pool) (c : Cert) (L : List LogItem) (h : HeldLog p L) (hc : Consistent (L ++ [.cert c])) :
+    HeldLog (p.addValidCert c).1 (L ++ [.cert c]) :=
   ⟨addValidCert_wired p c L h.wired hc, logHeld_addValidCert p c L h.logHeld (h.inv hc.prefix.safe) hc.safe⟩
 
-theorem held_addValidCerts (cs : List Cert) (p : Pool) (acc : List Event) (L : List LogItem) (h : Held p L)
-    (hc : Consistent (L ++ cs.map LogItem.cert)) : Held (p.addValidCerts cs acc).1 (L ++ cs.map LogItem.cert) := by
+theorem held_addValidCerts (cs : List Cert) (p : Pool) (acc : List Event) (L : List LogItem) (h : HeldLog p L)
+    (hc : Consistent (L ++ cs.map LogItem.cert)) : HeldLog (p.addValidCerts cs acc).1 (L ++ cs.map LogItem.cert) := by
   induction cs generalizing p acc L with
   | nil => simpa [Pool.addValidCerts] using h
   | cons c cs ih =>
@@ -553,8 +553,8 @@ theorem held_addValidCerts (cs : List Cert) (p : Pool) (acc : List Event) (L : L
     rw [e] at hc ⊢
     exact ih (p.addValidCert c).1 (acc ++ (p.addValidCert c).2) (L ++ [.cert c]) (held_addValidCert p c L h hc.prefix) hc
 
-theorem held_addVote (p : Pool) (v : Vote) (L : List LogItem) (h : Held p L)
-    (hc : Consistent (L ++ certsOf (p.addVote v).2.2)) : Held (p.addVote v).1 (L ++ certsOf (p.addVote v).2.2) := by
+theorem held_addVote (p : Pool) (v : Vote) (L : List LogItem) (h : HeldLog p L)
+    (hc : Consistent (L ++ certsOf (p.addVote v).2.2)) : HeldLog (p.addVote v).1 (L ++ certsOf (p.addVote v).2.2) := by
   rcases addVote_shape p v with ⟨h1 | h1, h2⟩ | ⟨_, h2, h3⟩
   · rw [h1, h2, List.append_nil]; exact h
   · rw [h1, h2, List.append_nil]; exact h.ext (slotState_trk _ _) (ext_slotState _ _)
@@ -562,8 +562,8 @@ theorem held_addVote (p : Pool) (v : Vote) (L : List LogItem) (h : Held p L)
     rw [h2]
     exact held_addValidCerts _ _ [] L (h.ext (addVoteQ_trk p v) (ext_addVoteQ p v)) hc
 
-theorem held_addCert (p : Pool) (c : Cert) (L : List LogItem) (h : Held p L)
-    (hc : Consistent (L ++ certsOf (p.addCert c).2.2)) : Held (p.addCert c).1 (L ++ certsOf (p.addCert c).2.2) := by
+theorem held_addCert (p : Pool) (c : Cert) (L : List LogItem) (h : HeldLog p L)
+    (hc : Consistent (L ++ certsOf (p.addCert c).2.2)) : HeldLog (p.addCert c).1 (L ++ certsOf (p.addCert c).2.2) := by
   rcases addCert_shape p c with ⟨h1 | h1, h2⟩ | ⟨_, h2, h3⟩
   · rw [h1, h2, List.append_nil]; exact h
   · rw [h1, h2, List.append_nil]; exact h.ext (slotState_trk _ _) (ext_slotState _ _)
@@ -598,19 +598,19 @@ theorem ext_addBlock (p : Pool) (b par : Nat × Nat) (hi : Finality.Inv p.fin) :
         intro st0 hs
         have hsl : ((q.slotState b.1).2.notifyParentKnown b.2).slot = b.1 := by
           rw [← (notifyParentKnown_certsEq _ _).1]
-          exact getSlot_slot (getSlot_slotState_same q b.1)
+          exact getSlot_slotW (getSlot_slotState_same q b.1)
         rw [hsl, getSlot_slotState_same] at hs
         cases hs
         exact notifyParentKnown_certsEq _ _
       exact ((ext_slotState q b.1).trans h2).trans (ext_addBlockTail _ _ _ _ _)
 
-theorem held_addBlock (p : Pool) (b par : Nat × Nat) (L : List LogItem) (h : Held p L)
-    (hc : Consistent (L ++ [.block b par])) : Held (p.addBlock b par).1 (L ++ [.block b par]) :=
+theorem held_addBlock (p : Pool) (b par : Nat × Nat) (L : List LogItem) (h : HeldLog p L)
+    (hc : Consistent (L ++ [.block b par])) : HeldLog (p.addBlock b par).1 (L ++ [.block b par]) :=
   ⟨addBlock_wired p b par L h.wired hc, (h.logHeld.ext (ext_addBlock p b par (h.inv hc.prefix.safe))).block b par⟩
 
-theorem held_poolStep (p : Pool) (op : PoolOp) (L : List LogItem) (h : Held p L)
+theorem held_poolStep (p : Pool) (op : PoolOp) (L : List LogItem) (h : HeldLog p L)
     (hc : Consistent (L ++ stepItems op (poolStep p op).2)) :
-    Held (poolStep p op).1 (L ++ stepItems op (poolStep p op).2) := by
+    HeldLog (poolStep p op).1 (L ++ stepItems op (poolStep p op).2) := by
   cases op with
   | vote v => exact held_addVote p v L h (by simpa [stepItems, poolStep] using hc)
   | cert c => exact held_addCert p c L h (by simpa [stepItems, poolStep] using hc)
@@ -620,8 +620,8 @@ theorem held_poolStep (p : Pool) (op : PoolOp) (L : List LogItem) (h : Held p L)
     rw [this] at hc ⊢
     exact held_addBlock p b par L h hc
 
-theorem held_poolRun (ops : List PoolOp) (p : Pool) (L : List LogItem) (h : Held p L)
-    (hc : Consistent (L ++ poolLog p ops)) : Held (poolRun p ops).1 (L ++ poolLog p ops) := by
+theorem held_poolRun (ops : List PoolOp) (p : Pool) (L : List LogItem) (h : HeldLog p L)
+    (hc : Consistent (L ++ poolLog p ops)) : HeldLog (poolRun p ops).1 (L ++ poolLog p ops) := by
   induction ops generalizing p L with
   | nil => simpa [poolLog, poolRun] using h
   | cons op ops ih =>
@@ -629,7 +629,7 @@ theorem held_poolRun (ops : List PoolOp) (p : Pool) (L : List LogItem) (h : Held
     rw [← List.append_assoc] at hc ⊢
     exact ih _ _ (held_poolStep p op L h hc.prefix) hc
 
-theorem Held.init (e : Epoch) : Held ({ epoch := e } : Pool) [] :=
+theorem HeldLog.init (e : Epoch) : HeldLog ({ epoch := e } : Pool) [] :=
   ⟨Wired.init e, fun c hc => by cases hc⟩
 
 /-! ### per-slot-state predicates along the pool operations (generic) -/
@@ -908,7 +908,7 @@ theorem stakeOf_own (e : Epoch) (l : List Nat) (h1 : ∀ x ∈ l, x = e.own) (h2
     subst hxs; subst hx
     exact ⟨by simp [stakeOf], fun h => absurd List.mem_cons_self h⟩
 
-theorem isMet_mono {num den x y total : Nat} (hxy : x ≤ y) (h : isMet num den x total = true) : isMet num den y total = true := by
+theorem isMet_monoW {num den x y total : Nat} (hxy : x ≤ y) (h : isMet num den x total = true) : isMet num den y total = true := by
   unfold isMet at *
   simp only [decide_eq_true_eq] at *
   exact Nat.le_trans h (Nat.mul_le_mul_right _ hxy)
@@ -919,7 +919,7 @@ theorem not_quorum_of_le {e : Epoch} {x : Nat} (hown : e.isQuorum (e.stake e.own
     cases h : e.isQuorum x
     · rfl
     · unfold Epoch.isQuorum at h hown
-      rw [isMet_mono hx h] at hown; cases hown
+      rw [isMet_monoW hx h] at hown; cases hown
   refine ⟨h1, ?_⟩
   cases h : e.isStrong x
   · rfl
@@ -1279,8 +1279,8 @@ namespace Replay
 variable {e : Epoch} {ops : List PoolOp} {certs : List Cert} {votes : List Vote} {rops : List PoolOp}
 
 theorem sender_held (_ : Replay e ops certs votes rops) (hc : Consistent (poolLog { epoch := e } ops)) :
-    Held (poolRun { epoch := e } ops).1 (poolLog { epoch := e } ops) := by
-  have := held_poolRun ops { epoch := e } [] (Held.init e) (by simpa using hc)
+    HeldLog (poolRun { epoch := e } ops).1 (poolLog { epoch := e } ops) := by
+  have := held_poolRun ops { epoch := e } [] (HeldLog.init e) (by simpa using hc)
   simpa using this
 
 theorem sender_hl (_ : Replay e ops certs votes rops) :
@@ -1312,7 +1312,7 @@ theorem fed_prefix (S : Replay e ops certs votes rops) {pre : List PoolOp} (hp :
 theorem recv_prefix (S : Replay e ops certs votes rops) {pre : List PoolOp} (hp : pre <+: rops) :
     (∀ x ∈ poolLog { epoch := e } pre, ∃ c ∈ certs, x = .cert c) ∧
     Consistent (poolLog { epoch := e } pre) ∧
-    Held (poolRun { epoch := e } pre).1 (poolLog { epoch := e } pre) ∧
+    HeldLog (poolRun { epoch := e } pre).1 (poolLog { epoch := e } pre) ∧
     AllSlots (poolRun { epoch := e } pre).1 (HL (poolLog { epoch := e } pre)) := by
   obtain ⟨_, hlog⟩ := recv_log e certs votes S.votes_own S.own pre (S.fed_prefix hp) { epoch := e } (RecvInv.init e)
   have hsub : ∀ x ∈ poolLog { epoch := e } pre, x ∈ poolLog { epoch := e } ops := by
@@ -1321,7 +1321,7 @@ theorem recv_prefix (S : Replay e ops certs votes rops) {pre : List PoolOp} (hp 
     exact S.certs_logged c hc
   have hcons : Consistent (poolLog { epoch := e } pre) := S.cons.sub hsub
   refine ⟨hlog, hcons, ?_, ?_⟩
-  · have := held_poolRun pre { epoch := e } [] (Held.init e) (by simpa using hcons)
+  · have := held_poolRun pre { epoch := e } [] (HeldLog.init e) (by simpa using hcons)
     simpa using this
   · have := hl_poolRun pre { epoch := e } [] (fun st h => by simp at h)
     simpa using this
